@@ -43,7 +43,8 @@ def run(chk, repo, tier):
     chk.rule("C18.R1", "jacobian_double/add/to/from equal the affine law on every path (identity encodings included)", 12)
     chk.rule("C18.R2", "jacobian_multiply returns (n mod N)·P for every integer n on every path; recursion terminates; final raise dead", 9)
     chk.rule("C18.R3", "add/multiply/privtopub are from_jacobian∘op∘to_jacobian; P, N, A, B, G equal SEC 2; G on curve; N prime; N·G = O", 10)
-    chk.not_decided += ["associativity of the group law"]
+    chk.rule("C18.R4", "associativity of the affine table on the codimension-one strata (the generic stratum is C07.R6, thorough tier)", 6)
+    chk.not_decided += ["associativity on the lower-dimensional strata not listed under C18.R4 / C07.R6"]
     chk.assumptions += ["no point of order 2 on secp256k1 (odd prime group order; N·G = O and Hasse bound are checked)"]
     w = World(repo)
     secp_jacobian_obligations(chk, "C18.R1", repo, w)
@@ -90,6 +91,9 @@ def run(chk, repo, tier):
              "Hasse: (N - P - 1)^2 <= 4P, so with N prime and N·G = O the group order is N": (SP.SECP_N - Pm - 1) ** 2 <= 4 * Pm}
     for kf, v in facts.items():
         chk.ob("C18.R3", SECP, kf, v, "checker's own arithmetic on the SEC 2 literals", "vstatic/spec/params.py")
+    from ..assoc import obligations as assoc_obligations
+    for name, ok, det in assoc_obligations("quick"):
+        chk.ob("C18.R4", "vstatic.curvelaw (affine table)", name, ok, det, "vstatic/curvelaw.py")
 
 
 MANIFEST = {
@@ -100,6 +104,6 @@ MANIFEST = {
             "identities), jacobian_multiply returns (n mod N)·P on each path under the induction hypothesis with a decreasing "
             "measure (negative and oversized n are reduced exactly once), the wrappers are the stated compositions, "
             "bytes_to_int is big-endian OS2IP, and the constants are SEC 2's (G on curve, N prime, N·G = O, Hasse). "
-            "Associativity is not decided.",
+            "Associativity: codimension-one strata of the affine table here, generic stratum in C07.R6 (thorough).",
     "note": "Trusted: evaluator model; checker's polynomial and modular arithmetic; SEC 2 literals in vstatic/spec/params.py.",
 }
